@@ -11,7 +11,7 @@ def run(ctx):
     ctx.cov["frame_condition_catches_in_place_writes_in_model"] = (r.inv == "MutationIsLocal")
     if r.inv != "MutationIsLocal":
         raise vlib.Infra("vacuity: the broken (write in place) model does not violate MutationIsLocal")
-    n = 150 if quick else 3000
+    n = 250 if quick else 5000
     progs = vlib.gen_behaviours(ctx, "GenAlias", "GenAlias.cfg", num=n, depth=120, env={"GEN_DEPTH": 24 if quick else 36})[:n]
     ctx.cov["behaviours_replayed"] = len(progs)
     ctx.cov["mutations_generated"] = sum(1 for p in progs for c in p if c["op"] == "mutate")
